@@ -2,8 +2,8 @@
 The reachable-state invariant `Graph.WF` holds for every graph built through the
 public constructors (`Graph()`, `add_node`, `add_child`, `Graph(nodes=…)`), and
 the elementary getters (`get_sources`, sinks, `get_edges`, `is_source`) meet
-their definitions.  `remove` keeps `nodupKeys` and `parentsCount` but breaks
-`closed` (finding C17-D3, see `Props/C17.lean`).
+their definitions.  `remove` (repaired, /repo ce9bde1) is treated in
+`GraphRemove.lean`.
 -/
 import ErdosVerif.Lemmas.GraphBasic
 
